@@ -1,6 +1,8 @@
 """C12 — periodic Hellos: random schedules of tick / clock / table / band / enumeration / mapping operations"""
 from .common import ident
 
+from . import auto
+
 PROP = 'C12'
 PREDICATE = 'C12'
 LEAN_TARGETS = ['LLTD.Props.C12']
@@ -92,7 +94,11 @@ def schedule(rng, n, flow):
 
 def cases(rng, tier, X):
     n = 300 if tier == 'quick' else 30000
-    return [('sch%d' % k, schedule(rng, rng.randint(50, 500 if tier == 'thorough' else 250), k % 2 == 0)) for k in range(n)]
+    out = [('sch%d' % k, schedule(rng, rng.randint(50, 500 if tier == 'thorough' else 250), k % 2 == 0)) for k in range(n)]
+    # universal automata schedule (all public calls, missing objects, near-colliding keys, bridged frames, every deadline): this check's predicate on it
+    for k in range(60 if tier == 'quick' else 6000):
+        out.append(('au%d' % k, auto.schedule(rng)))
+    return out
 
 
 def nontrivial(ops, impl):
